@@ -106,10 +106,13 @@ void bn_rec_win(uint8_t *win, size_t *len, const bn_t k, size_t w) {
 	memset(win, 0, *len);
 
 	j = 0;
-	for (i = 0; i < l - w; i += w) {
+	/* The comparison must be signed, l can be smaller than w. */
+	for (i = 0; i < l - (int)w; i += w) {
 		win[j++] = get_bits(k, i, i + w - 1);
 	}
-	win[j++] = get_bits(k, i, bn_bits(k) - 1);
+	if (i < l) {
+		win[j++] = get_bits(k, i, l - 1);
+	}
 	*len = j;
 }
 
